@@ -369,8 +369,14 @@ def run_case(case, acc, base_dir, idx):
     holder = {}
 
     async def main():
-        single = SqliteWorkflowStore(os.path.join(d, "single.db"), single_connection=True)
         per_call = SqliteWorkflowStore(os.path.join(d, "per_call.db"))
+        try:
+            single = SqliteWorkflowStore(os.path.join(d, "single.db"), single_connection=True)
+        except Exception as e:  # noqa: BLE001  (the per-call store opened fine on an equally fresh path)
+            acc.violation({"mech": "single_connection_store_cannot_open", "exc": type(e).__name__},
+                          f"SqliteWorkflowStore(single_connection=True) on a fresh path raised {type(e).__name__}: {e}",
+                          {"ops": []})
+            return
         holder["single"] = single
         holder["keeper"] = sqlite3.connect(os.path.join(d, "per_call.db"))
         holder["keeper"].execute("SELECT count(*) FROM handlers").fetchall()
